@@ -1,6 +1,7 @@
 import PokerVerif.Drv.SMDrv
 import PokerVerif.Drv.TBDrv
 import PokerVerif.Drv.OGMDrv
+import PokerVerif.Drv.HDDrv
 /-! Correspondence driver: reads a trace on stdin, replays it through the models, prints verdict lines. -/
 open Drv
 
@@ -9,6 +10,7 @@ structure DrvState where
   sm : SMDrv := {}
   tb : TBDrv := {}
   ogm : OGMDrv := {}
+  hd : HDDrv := {}
   bad : Nat := 0
 
 partial def loop (h : IO.FS.Stream) (out : IO.FS.Stream) (s : DrvState) : IO DrvState := do
@@ -31,6 +33,10 @@ partial def loop (h : IO.FS.Stream) (out : IO.FS.Stream) (s : DrvState) : IO Drv
     let (o', outs) := ogmLine s.ogm n rest
     for o in outs do out.putStrLn o
     loop h out { s with lineNo := n, ogm := o' }
+  | "hd" :: rest =>
+    let (o', outs) := hdLine s.hd n rest
+    for o in outs do out.putStrLn o
+    loop h out { s with lineNo := n, hd := o' }
   | _ =>
     out.putStrLn s!"BADLINE {n} unknown-layer"
     loop h out { s with lineNo := n, bad := s.bad + 1 }
@@ -42,4 +48,5 @@ def main : IO Unit := do
   for l in s.sm.summary do stdout.putStrLn l
   for l in s.tb.summary do stdout.putStrLn l
   for l in s.ogm.summary do stdout.putStrLn l
+  for l in s.hd.summary do stdout.putStrLn l
   stdout.putStrLn s!"DONE lines={s.lineNo}"
